@@ -22,14 +22,17 @@ import (
 // also contain notifications and responses to ids nobody is waiting for.
 
 type Line struct {
-	Calls   []int `json:"calls"`             // indices (mod outstanding) of calls answered on this line
-	Notes   int   `json:"notes,omitempty"`   // progress notifications mixed into the line
-	Strays  int   `json:"strays,omitempty"`  // responses with ids that were never issued
-	Batch   bool  `json:"batch"`             // send as a JSON array even if it holds one element
+	Calls   []int `json:"calls"`              // indices (mod outstanding) of calls answered on this line
+	Notes   int   `json:"notes,omitempty"`    // progress notifications mixed into the line
+	Strays  int   `json:"strays,omitempty"`   // responses with ids that were never issued
+	Batch   bool  `json:"batch"`              // send as a JSON array even if it holds one element
 	ErrResp bool  `json:"err_resp,omitempty"` // answer with a JSON-RPC error instead of a result
 	// Decoy: every response of the line also carries members whose names differ from "id" / "result" only
 	// in letter case, naming ANOTHER outstanding call (they are unknown members and must be ignored).
 	Decoy bool `json:"decoy,omitempty"`
+	// Glue: this line and the next one reach the session in one piece (one write on the peer's side, or two
+	// that the pipe coalesced): a single read then returns more than one message.
+	Glue bool `json:"glue,omitempty"`
 }
 
 type WireScript struct {
@@ -53,6 +56,7 @@ func genWire(rt *rapid.T) WireScript {
 			Batch:   rapid.Bool().Draw(rt, "batch"),
 			ErrResp: rapid.IntRange(0, 5).Draw(rt, "err") == 0,
 			Decoy:   rapid.IntRange(0, 3).Draw(rt, "decoy") == 0,
+			Glue:    rapid.IntRange(0, 3).Draw(rt, "glue") == 0,
 		}
 		s.Lines = append(s.Lines, l)
 	}
@@ -199,6 +203,7 @@ func runWireInBubble(s WireScript) (res vt.Result) {
 			return false
 		}
 	}
+	held := "" // lines written together with the next one
 	for li, l := range s.Lines {
 		var outstanding []int
 		for k := 0; k < s.N; k++ {
@@ -269,6 +274,13 @@ func runWireInBubble(s WireScript) (res vt.Result) {
 		if s.CRLF {
 			line += "\r"
 		}
+		if l.Glue && li < len(s.Lines)-1 {
+			held += line + "\n"
+			res.Class("two_lines_in_one_read")
+			desc.WriteString("+")
+			continue
+		}
+		line, held = held+line, ""
 		if err := peer.Send(line); err != nil {
 			res.Failf("line %d: cannot send: %v", li, err)
 			return
@@ -304,6 +316,10 @@ func runWireInBubble(s WireScript) (res vt.Result) {
 		if len(res.Violations) > 0 {
 			return
 		}
+	}
+	if held != "" {
+		peer.Send(strings.TrimSuffix(held, "\n"))
+		synctest.Wait()
 	}
 	for k := 0; k < s.N; k++ {
 		if !isDone(k) {
